@@ -80,6 +80,7 @@ class Engine:
         self.n_unknown = 0
         self.solver_time = 0.0
         self.truncated = False
+        self.deadline = None        # wall-clock limit of one exploration (time.time() value); exceeding it truncates (reported as cut)
         self._fresh = 0
 
     # -- variables ---------------------------------------------------------
@@ -169,7 +170,7 @@ class Engine:
         results = []
         self.conc = {}
         while self.todo:
-            if len(results) >= self.max_paths:
+            if len(results) >= self.max_paths or (self.deadline is not None and time.time() > self.deadline):
                 self.truncated = True
                 break
             self.prefix = self.todo.pop()
